@@ -16,7 +16,7 @@ from harness import refcargo as R
 LEVEL = 'exploration'
 RULE = ('(a) requirement x version grid: operators {bare,^,~,=,<,<=,>,>=} x partial versions M / M.m / M.m.p over {0..3} '
         '(+ pre-release tags -alpha,-alpha.1,-rc.2,-0 on full versions) + wildcards *, X.*, X.Y.*, each in up to 4 blank '
-        'spellings, comma lists of 2 and 3 over a 100-comparator base; versions = all M.m.p over {0..4}^3, the same with build '
+        'spellings, comma lists of 2 and 3 over a 100-comparator base (2 spellings each); versions = all M.m.p over {0..4}^3, the same with build '
         'metadata, and 5 pre-release spellings of each; thorough enumerates every cell, quick the cells with '
         '(i_req+i_ver+seed)%3==0. Release cells: cargo_parse(req)(v) == refcargo.matches(req,v); pre-release cells: only '
         '"False when no comparator names a pre-release". non-trivial cell = a version one step (+-1 in one component) away '
@@ -25,7 +25,7 @@ RULE = ('(a) requirement x version grid: operators {bare,^,~,=,<,<=,>,>=} x part
         'examples, numeric/alphanumeric/hyphen/upper-case identifiers, longer lists, build metadata) + Hypothesis random '
         'versions: trichotomy, operator consistency, antisymmetry, transitivity, reference comparator; every pair/triple '
         'with two different versions is non-trivial. (c) every cfg tree of depth<=2 over atoms {a,b,unix,k="v",k="w"} with '
-        'all/any arity 0-3 and not; depth 3 = not(t)/all|any(t)/all|any(t,u) over those (thorough: all, quick: every ninth by index+seed) '
+        'all/any arity 0-3 and not; depth 3 = not(t)/all|any(t)/all|any(t,u) over those (thorough: all, quick: every twelfth by index+seed) '
         '+ seeded arity-3 samples; each under all 40 assignments; space-only renderings demand the exact Boolean of the '
         'generated tree, tab/newline renderings and string values holding blanks/delimiters demand "MesonException or that '
         'Boolean"; non-trivial = >=2 operators, distinct by (tree, assignment). (d) malformed: every token string of '
@@ -221,6 +221,10 @@ def check_req_cell(cargo_parse: T.Any, comps: T.Sequence[T.Tuple[str, str]], var
             f0, _ = check_req_cell(cargo_parse, comps, 0, v, honour_known)
             if f0 is None:
                 sig = f'req/blank-spelling:{variant}'
+        if '+' in v:       # prefer the same cell without build metadata when it fails the same way
+            f1, _ = check_req_cell(cargo_parse, comps, variant, v.split('+')[0], honour_known)
+            if f1 is not None and f1.sig == sig:
+                return f1, 'release'
         return Failure(sig, case, f'cargo_parse({req!r})({v!r}) = {got}; Cargo rule with the two pinned deviations says {want} '
                                   f'(plain Cargo: {R.match_comps(rc, ver)})'), 'release'
     return None, 'release'
@@ -277,6 +281,8 @@ def _req_shard(shard: T.Tuple[T.List[T.List[T.Tuple[str, str]]], int, int, int, 
         g1 = {(c.major, c.minor, c.patch) for c in rc if c.op == '<=' and c.pre}
         table = {v.release: R.match_comps(rw, v) for v in relv}
         variants = _variants_of(comps)
+        if len(comps) > 1:          # lists: the canonical spelling and one rotating blank spelling
+            variants = [k for k in variants if k in (0, 1 + i % 3)]
         evaluated: T.List[T.Tuple[int, int, int]] = []
         for k in variants:
             req = canon if k == 0 else render_req(comps, k)
@@ -1256,19 +1262,19 @@ def run(ctx: Ctx) -> None:
     pmap(ctx, _req_shard, [(lists[lo:hi], lo, ctx.seed, stride, 'req_list') for lo, hi in _ranges(len(lists), 64)])
     # (b) SemVer order
     pmap(ctx, _semver_shard, _ranges(len(SEMVER_SET), 32))
-    pmap(ctx, _semver_text_shard, [(s, ctx.n(250, 5000)) for s in shard_seeds(ctx, 16)])
+    pmap(ctx, _semver_text_shard, [(s, ctx.n(150, 3000)) for s in shard_seeds(ctx, 16)])
     # (c) cfg trees
     N = len(level2())
     pmap(ctx, _cfg_shard, [('l2', lo, hi, ctx.seed, 1) for lo, hi in _ranges(N, 16)])
     total3 = 2 * N * N + 3 * N
-    pmap(ctx, _cfg_shard, [('l3', lo, hi, ctx.seed, 9 if ctx.quick else 1) for lo, hi in _ranges(total3, 64)])
-    pmap(ctx, _cfg_shard, [('sample', lo, hi, ctx.seed, 1) for lo, hi in _ranges(ctx.n(6000, 100000), 32)])
+    pmap(ctx, _cfg_shard, [('l3', lo, hi, ctx.seed, 12 if ctx.quick else 1) for lo, hi in _ranges(total3, 64)])
+    pmap(ctx, _cfg_shard, [('sample', lo, hi, ctx.seed, 1) for lo, hi in _ranges(ctx.n(4000, 60000), 32)])
     pmap(ctx, _cfg_value_shard, [0])
     # (d) malformed
     maxlen = 4 if ctx.quick else 5
     pmap(ctx, _malformed_enum_shard, [((), 1)] + [((a, b), maxlen) for a in TOKS for b in TOKS])
     pmap(ctx, _mutation_shard, [(ctx.seed, lo, hi) for lo, hi in _ranges(ctx.n(320, 3200), 32)])
-    pmap(ctx, _text_shard, [(s, ctx.n(500, 10000)) for s in shard_seeds(ctx, 16)])
+    pmap(ctx, _text_shard, [(s, ctx.n(400, 6000)) for s in shard_seeds(ctx, 16)])
     if not ctx.quick:
         thorough_cargo_validation(ctx)
     for k in [k for k, v in ctx.ev.hist.items() if v == 0]:     # classes that only carry samples
@@ -1281,5 +1287,5 @@ def run(ctx: Ctx) -> None:
     ctx.ev.extra['exhaustive_scope'] = (
         'thorough: every (single requirement, blank spelling) x every release version and every pre-release spelling where a claim exists; '
         'every ordered pair of the list base; all pairs/triples of the SemVer set; every cfg tree of depth<=2 and every depth-3 tree of arity<=2 '
-        'x 40 assignments; every token string of length<=5. quick: a third of the requirement cells and a ninth of the depth-3 trees (selected by index+seed), token strings <=4. '
+        'x 40 assignments; every token string of length<=5. quick: a third of the requirement cells and a twelfth of the depth-3 trees (selected by index+seed), token strings <=4. '
         'comma lists of 3, arity-3 trees at depth 3, mutations and free text are sampled in both tiers.')
